@@ -189,6 +189,11 @@ def case_readback(acc, rname, w):
     except (ValueError, TypeError):
         acc.count("accessor_rejected")
         return None
+    try:
+        # whatever route produced it: every decoded view of the result must be the decoding of its raw twin
+        probs += check_accessors(u)
+    except (ValueError, TypeError):
+        acc.count("accessor_rejected")
     if "%" in w or not w.isalnum():
         acc.nontrivial += 1
     if probs:
